@@ -920,16 +920,20 @@ class reactive_ops:
         # not parameters of the condition: listing them keeps the trigger
         # among the parameters that expressions built on this one depend on
         trigger = Trigger(parameters=params + xrefs + yrefs)
-        if xrefs:
+        # (a branch reference that is also a parameter of the condition is
+        # announced by the condition already: once is enough)
+        xonly = [r for r in xrefs if not any(r is p for p in params)]
+        yonly = [r for r in yrefs if not any(r is p for p in params)]
+        if xonly:
             def trigger_x(*args):
                 if self.value:
                     trigger.param.trigger('value')
-            bind(trigger_x, *xrefs, watch=True)
-        if yrefs:
+            bind(trigger_x, *xonly, watch=True)
+        if yonly:
             def trigger_y(*args):
                 if not self.value:
                     trigger.param.trigger('value')
-            bind(trigger_y, *yrefs, watch=True)
+            bind(trigger_y, *yonly, watch=True)
 
         def ternary(condition, _):
             return resolve_value(x) if condition else resolve_value(y)
